@@ -4,6 +4,7 @@ Modular and unbounded in the expression string / tree and the context: each wrap
 from MIR with the untyped evaluator it delegates to replaced by a havoc stub that logs its arguments and returns an arbitrary
 Result<Value, Error>; the wrapper's result must be the documented projection of that result, and the stub must have been called exactly
 once, with the caller's string/tree and context (a fresh default HashMapContext for the context-free forms)."""
+import zlib
 import sys, os, time, random, itertools, re
 import z3
 sys.path.insert(0, os.path.dirname(os.path.dirname(os.path.abspath(__file__))))
@@ -12,6 +13,7 @@ from harness import *
 from engine import NOTFOUND, identical
 
 PID = 'C12'
+CVC5_RATE = [0.01]
 TYPES = ['string', 'int', 'float', 'number', 'boolean', 'tuple', 'empty']
 VALUE_KINDS = ['String', 'Float', 'Int', 'Boolean', 'Tuple', 'Empty']
 EXPECTED_ERR = {'string': 'ExpectedString', 'int': 'ExpectedInt', 'float': 'ExpectedFloat', 'number': 'ExpectedNumber', 'boolean': 'ExpectedBoolean',
@@ -121,7 +123,7 @@ def unit(u, res):
     C = ctx()
     w = [x for x in wrappers(C) if x[0] == wname][0]
     name, body, form, typ, level = w
-    pr = checklib.Prover(res, timeout_ms)
+    pr = checklib.Prover(res, timeout_ms, CVC5_RATE[0], random.Random(zlib.crc32(repr(u).encode()) ^ checklib.env_seed()))
     stub_name = {('string', 'ctx'): 'eval_with_context', ('string', 'ctx_mut'): 'eval_with_context_mut', ('string', 'nocontext'): 'eval_with_context_mut',
                  ('tree', 'ctx'): 'Node::eval_with_context', ('tree', 'ctx_mut'): 'Node::eval_with_context_mut', ('tree', 'nocontext'): 'Node::eval_with_context_mut'}[(level, form)]
     all_eval = re.compile(r'(Node::)?eval_with_context(_mut)?')
@@ -197,7 +199,7 @@ def unit_compose(u, res):
     _, fname, timeout_ms, seed = u
     C = ctx()
     body = C.p.find_free(fname)
-    pr = checklib.Prover(res, timeout_ms)
+    pr = checklib.Prover(res, timeout_ms, CVC5_RATE[0], random.Random(zlib.crc32(repr(u).encode()) ^ checklib.env_seed()))
     ex = C.new_exec()
     holder = {}
     marker_tokens = VecV([C.token('Identifier', sstr('marker'))])
@@ -380,6 +382,7 @@ def main():
     t0 = time.time()
     tier = checklib.env_tier()
     seed = checklib.env_seed()
+    CVC5_RATE[0] = 0.05 if tier == 'quick' else 0.5
     timeout_ms = 60000 if tier == 'quick' else 600000
     frontend.load(overflow_checks=True)
     C = ctx()
